@@ -15,6 +15,11 @@ seeded samples of the triple/decoration products):
             two-gene module, prepeptides with leader/tail)
   M         records without areas, extra generic features, fungal taxon
   T         a few hand-made layouts off the raster, minimised from findings of the random search
+  P         prepeptides with leader / tail present or absent (4 combinations) on every gene of a region that
+            does not start at base 0 (second region of a linear record; region over the origin)
+  N         a gene with a locus tag of 47 / 52 / 68 characters (wrapped in GenBank qualifiers) x every decoration
+  O         origin-spanning multi-exon genes (both strands) x an origin-spanning region cutting them in the
+            inner exon / in the intron / in the outer exon / not at all
 """
 from __future__ import annotations
 
@@ -223,6 +228,8 @@ def focus_shapes() -> list[tuple[str, int, dict]]:
         ("org-fwd3", 1, {"p": [[336, 348], [354, 360], [0, 6], [12, 24]], "s": 1}),
         ("org-rev3", 1, {"p": [[12, 24], [0, 6], [354, 360], [336, 348]], "s": -1}),
         ("circ-fwd", 1, {"p": [[135, 165]], "s": 1}),
+        ("order-fwd", 0, {"p": [[126, 144], [153, 165]], "s": 1, "op": "order"}),     # order(...) instead of join(...)
+        ("order-rev", 0, {"p": [[153, 165], [126, 144]], "s": -1, "op": "order"}),
     ]
 
 
@@ -241,6 +248,11 @@ DECORATIONS: list[tuple[str, dict]] = [
     ("R0", {"a": ["R0"]}),
     ("R1", {"a": ["R1"]}),
     ("R2", {"a": ["R2"]}),
+    ("R3", {"a": ["R3"]}),
+    ("Pz", {"a": ["Pz"]}),       # the same annotations with E-value 0.0 / score 0.0 / masses 0.0
+    ("Tz", {"a": ["Tz"]}),
+    ("Dz", {"a": ["Dz"]}),
+    ("R2z", {"a": ["R2z"]}),
     ("all", {"g": 1, "note": 1, "a": ["f", "P", "T", "D", "R2"]}),
 ]
 
@@ -274,7 +286,7 @@ def family_b(tier: str) -> Iterator[dict]:
                 rules = []
                 if anchored:
                     rules = with_products([{"anchors": ["fx"], "nb": 45, "cut": 20}])
-                    if deco_label in ("R0", "R1", "R2", "all"):
+                    if deco_label in ("R0", "R1", "R2", "R3", "R2z", "all"):
                         rules[0]["prod"], rules[0]["cat"] = PRODUCTS[2]
                 else:
                     other = [g["n"] for g in genes if g["n"] != "fx"][:1]
@@ -289,7 +301,8 @@ def family_m(tier: str) -> Iterator[dict]:
         option = {"anchors": ["g1", "g2"], "nb": 45, "cut": 10}
         yield make(name, [], fam="M", decor=2, areas=0)
         yield make(name, with_products([option]), fam="M", decor=2, areas=0)
-        for misc in (["tta"], ["tfbs"], ["inmisc"], ["extmotif"], ["tta", "tfbs", "inmisc", "extmotif"]):
+        for misc in (["tta"], ["tfbs"], ["inmisc"], ["extmotif"], ["ordfwd"], ["ordrev"],
+                     ["tta", "tfbs", "inmisc", "extmotif", "ordfwd", "ordrev"]):
             yield make(name, with_products([option]), fam="M", decor=1, misc=misc)
         yield make(name, with_products([dict(option, t2=1)]), fam="M", decor=1)
         if not circular:
@@ -346,7 +359,78 @@ def family_t(tier: str) -> Iterator[dict]:
            "rules": [dict(rule(["g0", "g1"], 0, 5, 0), side=1, prod="side0")], "subs": [], "misc": []}
 
 
-FAMILIES = {"T": family_t, "A1": family_a1, "A2": family_a2, "A3": family_a3, "AS": family_as, "AX": family_ax,
+def family_p(tier: str) -> Iterator[dict]:
+    """ prepeptides with every combination of leader / tail present (R0-R3) on every gene of a region that does
+        not start at base 0: the second region of a linear record, and a region over the origin of a circular one
+        (genes before and after the origin, both strands) """
+    codes = ["R0", "R1", "R2", "R3"]
+    for rotation in range(4):
+        # linear: region 1 is g0 alone, region 2 holds g2..g5
+        _, genes = layout("LI")
+        for k, gene in enumerate(genes[2:]):
+            gene["a"] = [codes[(k + rotation) % 4]]
+        rules = with_products([{"anchors": ["g0"], "nb": 0, "cut": 15},
+                               {"anchors": ["g2", "g3", "g4", "g5"], "nb": 15, "cut": 20}])
+        rules[1]["prod"], rules[1]["cat"] = PRODUCTS[2]
+        yield {"fam": "P", "lay": f"LI/rot{rotation}", "L": L, "circ": 0, "seed": 2, "genes": genes, "rules": rules,
+               "subs": [], "misc": []}
+        # circular: one region from g4 over the origin to g1
+        _, genes = layout("CI")
+        for k, name in enumerate(["g4", "g5", "g0", "g1"]):
+            next(g for g in genes if g["n"] == name)["a"] = [codes[(k + rotation) % 4]]
+        rules = with_products([{"anchors": ["g4", "g5", "g0", "g1"], "nb": 15, "cut": 20}])
+        rules[0]["prod"], rules[0]["cat"] = PRODUCTS[2]
+        yield {"fam": "P", "lay": f"CI/rot{rotation}", "L": L, "circ": 1, "seed": 2, "genes": genes, "rules": rules,
+               "subs": [], "misc": []}
+
+
+def family_o(tier: str) -> Iterator[dict]:
+    """ origin-spanning genes with two exons on one side of the origin (both strands, with a gene feature),
+        and an origin-spanning region whose boundary on that side lies inside the inner exon / in the intron /
+        inside the outer exon / beyond the gene """
+    shapes = {   # exons in coordinate order: (before the origin), (after the origin)
+        "2-after": ([[345, 360]], [[0, 30], [40, 55]]),
+        "2-before": ([[300, 330], [345, 360]], [[0, 15]]),
+    }
+    for shape, (before, after) in shapes.items():
+        for strand in (1, -1):
+            parts = before + after if strand == 1 else after[::-1] + before[::-1]
+            for cut in ((20, 35, 48, 70) if shape == "2-after" else (350, 337, 315, 290)):
+                region = [[300, 360], [0, cut]] if shape == "2-after" else [[cut, 360], [0, 60]]
+                other = [[306, 336]] if shape == "2-after" else [[20, 50]]
+                genes = [{"n": "fx", "p": parts, "s": strand, "g": 1}, {"n": "g1", "p": other, "s": 1, "g": 1, "a": ["P"]},
+                         {"n": "g2", "p": [[150, 180]], "s": -1}]
+                yield {"fam": "O", "lay": f"{shape}/{'fwd' if strand == 1 else 'rev'}/{cut}", "L": L, "circ": 1, "seed": 3,
+                       "genes": genes, "rules": [], "subs": [{"p": region, "tool": "cassis", "label": "g1"}], "misc": []}
+
+
+LONG_NAMES = ["GCF_000123456_1_ASM12345v1_NZ_CP012345_1_c_0001",            # 47 characters: first length that wraps
+              "GCF_000123456_1_ASM12345v1_NZ_CP012345_1_cds_0001234",       # 52
+              "GCF_000123456_1_ASM12345v1_NZ_CP012345_1_plasmid_pVERIF1_cds_0001234"]   # 68
+
+
+def family_n(tier: str) -> Iterator[dict]:
+    """ a gene whose locus tag is so long that GenBank qualifier values naming it are wrapped over two lines
+        (biopython re-joins them with a space), with every decoration kind, on both strands """
+    for name in LONG_NAMES:
+        for strand in (1, -1):
+            for deco_label, deco in DECORATIONS:
+                if strand == -1 and tier != "thorough" and deco_label not in ("T", "D", "X", "R2", "all"):
+                    continue
+                genes = [{"n": f"g{k}", "p": [[15 + 60 * k, 45 + 60 * k]], "s": strand} for k in (0, 1, 3, 4, 5)]
+                gene = {"n": name, "p": [[135, 165]], "s": strand, "g": deco.get("g", 0), "note": deco.get("note", 0),
+                        "a": list(deco.get("a", []))}
+                if deco.get("next"):
+                    genes[2].setdefault("a", []).extend(deco["next"])
+                genes.insert(2, gene)
+                rules = with_products([{"anchors": [name], "nb": 45, "cut": 20}])
+                if any(code.startswith("R") for code in gene["a"]):
+                    rules[0]["prod"], rules[0]["cat"] = PRODUCTS[2]
+                yield {"fam": "N", "lay": f"{len(name)}/{'fwd' if strand == 1 else 'rev'}/{deco_label}", "L": L, "circ": 0,
+                       "seed": 4, "genes": genes, "rules": rules, "subs": [], "misc": []}
+
+
+FAMILIES = {"T": family_t, "P": family_p, "O": family_o, "N": family_n, "A1": family_a1, "A2": family_a2, "A3": family_a3, "AS": family_as, "AX": family_ax,
             "B": family_b, "M": family_m}
 
 
@@ -402,7 +486,7 @@ def random_spec(rng: Any) -> dict:
             first["p"] = [[0, first["p"][0][1]]]
             first["cs"] = rng.choice([1, 2, 3])
             first["fz"] = 1
-    codes = ["F", "f", "N", "P", "T", "D", "R0", "R1", "R2"]
+    codes = ["F", "f", "N", "P", "T", "D", "R0", "R1", "R2", "R3", "Pz", "Tz", "Dz", "R2z"]
     for gene in genes:
         gene["g"] = int(rng.random() < 0.4)
         gene["note"] = int(rng.random() < 0.3)
@@ -437,6 +521,6 @@ def random_spec(rng: Any) -> dict:
             subs.append({"p": parts, "tool": rng.choice(["cassis", "other"]), "label": rng.choice(["", genes[0]["n"]])})
     if not rules and not subs:
         subs.append({"p": [[0, length // 2]], "tool": "cassis", "label": ""})
-    misc = [code for code in ("tta", "tfbs", "inmisc", "extmotif") if rng.random() < 0.25]
+    misc = [code for code in ("tta", "tfbs", "inmisc", "extmotif", "ordfwd", "ordrev") if rng.random() < 0.25]
     return {"fam": "R", "lay": "random", "L": length, "circ": int(circular), "seed": rng.randrange(1000),
             "genes": genes, "rules": rules, "subs": subs, "misc": misc}
